@@ -18,13 +18,14 @@ CONSTANTS
   ResetCounts = %(reset)s
   GuardsOn = %(guards)s
   PopDefaultOnRaise = %(popdef)s
+  TaintedReused = %(tainted)s
   MaxQueries = %(queries)d
   MaxRaises = %(raises)d
 %(props)s
 CHECK_DEADLOCK FALSE
 '''
-DEFAULT = dict(K=4, funcs='4', deps=2, rec=3, total=4, perfunc=3, perrec=1, infer=6, reset='TRUE', guards='TRUE', popdef='TRUE', queries=2, raises=0)
-INVS = ['BoundedWork', 'DepthBounded', 'Balanced', 'GuardsConsistent', 'Repeatable', 'NoPoison']
+DEFAULT = dict(K=4, funcs='4', deps=2, rec=3, total=4, perfunc=3, perrec=1, infer=6, reset='TRUE', guards='TRUE', popdef='TRUE', tainted='TRUE', queries=2, raises=0)
+INVS = ['BoundedWork', 'DepthBounded', 'Balanced', 'GuardsConsistent', 'NoPoison']
 
 
 def engine_cfg(ctx, name, invs=INVS, spec=False, props=(), extra='', **kw):
